@@ -49,22 +49,22 @@ def make_case(seed, i):
     files, what = None, None
     r2 = rng.fork("inv")
     if loc == "main":
-        files, what = E.invalidate(valid_files, "/w/pkg", r2, r2.choice(["yaml_syntax", "duplicate_type", "unknown_type", "bad_field_name", "stream_in_record"]))
+        files, what = E.invalidate(valid_files, "/w/pkg", r2, r2.choice(["yaml_syntax", "duplicate_type", "unknown_type", "bad_field_name", "stream_in_record"] + E.RULE_KINDS))
     elif loc == "manifest":
         files, what = E.invalidate(valid_files, "/w/pkg", r2, r2.choice(["unknown_manifest_key", "missing_namespace", "dup_version_label"]))
     elif loc == "import" and pkg.imports:
         imp = r2.choice(pkg.all_packages()[:-1])
-        files, what = E.invalidate(valid_files, "/w/" + imp.dirname, r2, r2.choice(["yaml_syntax", "yaml_syntax", "duplicate_type", "unknown_type", "bad_field_name", "unknown_manifest_key", "missing_namespace"]))
+        files, what = E.invalidate(valid_files, "/w/" + imp.dirname, r2, r2.choice(["yaml_syntax", "yaml_syntax", "duplicate_type", "unknown_type", "bad_field_name", "unknown_manifest_key", "missing_namespace"] + E.RULE_KINDS))
     elif loc == "version" and pkg.versions:
         _, v = r2.choice(pkg.versions)
-        files, what = E.invalidate(valid_files, "/w/" + v.dirname, r2, r2.choice(["yaml_syntax", "duplicate_type", "unknown_type", "bad_field_name"]))
+        files, what = E.invalidate(valid_files, "/w/" + v.dirname, r2, r2.choice(["yaml_syntax", "duplicate_type", "unknown_type", "bad_field_name"] + E.RULE_KINDS))
     elif loc == "version_import" and pkg.versions:
         # the only error is in a package that a previous version imports (its own archived copy of it)
         _, v = r2.choice(pkg.versions)
         vimps = v.all_packages()[:-1]
         if vimps:
             imp = r2.choice(vimps)
-            files, what = E.invalidate(valid_files, "/w/" + imp.dirname, r2, r2.choice(["yaml_syntax", "duplicate_type", "unknown_type", "bad_field_name"]))
+            files, what = E.invalidate(valid_files, "/w/" + imp.dirname, r2, r2.choice(["yaml_syntax", "duplicate_type", "unknown_type", "bad_field_name"] + E.RULE_KINDS))
     elif loc == "evolution" and pkg.versions:
         p2 = copy.deepcopy(pkg)
         _, v = r2.choice(p2.versions)
